@@ -226,6 +226,14 @@ def build(case):
             d = vec6(x) - vec6(y)
             return math.sqrt(float(d[0] ** 2 + d[1] ** 2 + d[2] ** 2 + 0.1 * (d[3] ** 2 + d[4] ** 2 + d[5] ** 2)))
         rec.dist_fn = dist_w6
+    elif case["dist_cb"] == "climb":
+        # a cost of travel that depends on the direction (going up costs more than going down): "the distance to its
+        # parent" is the supplied function of (node, parent), in that order, as the library passes them
+        def dist_climb(x, y):
+            a, c = vec6(x), vec6(y)
+            d = a - c
+            return math.sqrt(float(d[0] ** 2 + d[1] ** 2 + d[2] ** 2)) + 0.75 * max(0.0, float(c[2] - a[2]))
+        rec.dist_fn = dist_climb
     else:
         raise ValueError(case["dist_cb"])
 
@@ -532,7 +540,7 @@ def runs(draw, max_iter):
     api = draw(st.sampled_from(["findPath", "general", "general"]))
     if api == "general":
         gen_cb = draw(st.sampled_from(["default", "default", "position_only", "goal_bias"]))
-        dist_cb = draw(st.sampled_from(["default", "default", "scaled", "weighted6"]))
+        dist_cb = draw(st.sampled_from(["default", "default", "scaled", "weighted6", "climb"]))
         coll_cb = draw(st.sampled_from(["default", "default", "own_margin"]))
     else:
         gen_cb = dist_cb = coll_cb = "default"
@@ -550,6 +558,8 @@ def runs(draw, max_iter):
         typical = b
     if dist_cb == "scaled":
         typical *= 2.5
+    if dist_cb == "climb":
+        typical *= 1.4
     iterations = draw(st.one_of(st.integers(20, max_iter), st.integers(20, max_iter), st.integers(max(20, max_iter // 2), max_iter),
                                 st.integers(1, 19), st.sampled_from([1, 2, 3])))
     fl = 0.35 if typical <= 2.5 * b else 0.5        # metrics with a rotation part: keep the first acceptances likely
